@@ -20,6 +20,8 @@ pub struct Ctx {
     pub strict: bool,
     /// this process is a sub-run of another nlv process: print the report as JSON instead of finishing
     pub inner: bool,
+    /// number of KNOWN-FINDING lines already printed by the reproducer replay
+    pub known_printed: usize,
 }
 
 impl Ctx {
